@@ -2,6 +2,7 @@ import StepModel.ExpDecl
 import StepModel.ExpDeclSyn
 import StepModel.ExpLex
 import StepModel.ExpEntitySyn
+import StepModel.ExpStmtSyn
 /-! Line-protocol driver for the exppp model (property C07).
 
   pp <linelen> <t:0|1> <c:0|1> SCHEMA…      -> `P <escaped text>` | `parse-error`
@@ -250,6 +251,53 @@ def rdEntity : Rd EntityDecl := do
     pure ({ label := if l = "-" then none else some (unhex l), expr := .ident "E" } : DomRule))
   pure { name, abstract := ab, sup, subOf := sub, expl, der, inv, uniq := uq, dom := wh }
 
+/-! `stmts <n> stmt…` : a statement list -> the tokens of `stmtsToks` and whether `parseStmts` reads them back
+stmt: `AS` | `CL <hex> <nargs>` | `RT <0/1>` | `SK` | `ES` | `BG <n> stmt…` | `IF <else 0/1> <n> stmt… <n> stmt…`
+| `CS <n> {<nlabels> stmt} <other 0/1> [stmt]` | `LP <incr 0/1> [<hex var>] <while> <until> <n> stmt…` | `AL <hex> <n> stmt…` -/
+def exE : Expr := .ident "E"
+
+mutual
+partial def rdStmt : Rd Stmt := do
+  match (← word) with
+  | "AS" => pure (.assign exE exE)
+  | "CL" =>
+    let f ← hexw
+    let n ← nat
+    pure (.call f (List.replicate n exE))
+  | "RT" => pure (.ret (if (← flag) then some exE else none))
+  | "SK" => pure .skip
+  | "ES" => pure .escape
+  | "BG" => pure (.compound (← rdStmtList))
+  | "IF" =>
+    let he ← flag
+    let th ← rdStmtList
+    let el ← rdStmtList
+    pure (.cond exE th he el)
+  | "CS" =>
+    let items ← rep (← nat) (do
+      let nl ← nat
+      let a ← rdStmt
+      pure (Stmt.item (List.replicate nl exE) a))
+    let ho ← flag
+    let o ← if ho then rdStmt else pure .nil
+    pure (.case exE (items.foldr Stmt.cons .nil) ho o)
+  | "LP" =>
+    let hi ← flag
+    let incr ← if hi then do pure (some ((← hexw), exE, exE, exE)) else pure none
+    let wh ← flag
+    let un ← flag
+    let b ← rdStmtList
+    pure (.loop incr (if wh then some exE else none) (if un then some exE else none) b)
+  | "AL" =>
+    let a ← hexw
+    let b ← rdStmtList
+    pure (.alias a exE b)
+  | _ => failure
+partial def rdStmtList : Rd Stmt := do
+  let xs ← rep (← nat) rdStmt
+  pure (xs.foldr Stmt.cons .nil)
+end
+
 def esc (s : List Char) : String :=
   String.ofList (s.flatMap fun c => if c = '\n' then ['\\', 'n'] else if c = '\\' then ['\\', '\\'] else [c])
 
@@ -279,6 +327,13 @@ def handle (line : String) : String :=
     match lex (unhexL h.toList) with
     | some ts => "L " ++ " ".intercalate (ts.map wordOfTok)
     | none => "lex-error"
+  | "stmts" :: rest =>
+    match rdStmtList.run rest with
+    | some (b, []) =>
+      let ts := stmtsToks b
+      let back := parseStmts (8 * ts.length + 64) (ts ++ [.kw "END_X"])
+      "D " ++ " ".intercalate (ts.map dtokStr) ++ (if back == some (b, [.kw "END_X"]) then " | roundtrip-ok" else " | roundtrip-differs")
+    | _ => "bad-op"
   | "entity" :: rest =>
     match rdEntity.run rest with
     | some (e, []) =>
